@@ -194,6 +194,37 @@ func init() {
 			v := X.NewVar(varName(strArg(args[0])), 64, uint64(lo), rangeDom(uint64(lo), uint64(hi), true))
 			return sym{types.Int, v}, true
 		},
+		"verifIntSet": func(fr *frame, args []value) (value, bool) {
+			// domain given as "0-34,62-66,100"
+			var rs [][2]int64
+			for _, part := range strings.Split(strArg(args[1]), ",") {
+				var lo, hi int64
+				if n, _ := fmt.Sscanf(part, "%d-%d", &lo, &hi); n < 2 {
+					fmt.Sscanf(part, "%d", &lo)
+					hi = lo
+				}
+				rs = append(rs, [2]int64{lo, hi})
+			}
+			v := X.NewVar(varName(strArg(args[0])), 64, uint64(rs[0][0]), func(v *Term) *Term {
+				c := TFalse
+				for _, r := range rs {
+					c = TOr(c, TAnd(TBin(OpSLe, TConst(64, uint64(r[0])), v), TBin(OpSLe, v, TConst(64, uint64(r[1])))))
+				}
+				return c
+			})
+			return sym{types.Int, v}, true
+		},
+		"verifCaseSimple": func(fr *frame, args []value) (value, bool) {
+			r, ok := args[0].(sym)
+			if !ok {
+				return caseSimple(args[0].(rune)), true
+			}
+			registerRunePred("vCaseSimple", caseSimple)
+			return mkVal(types.Bool, TApp("vCaseSimple", r.t)), true
+		},
+		"verifGiveUp": func(fr *frame, args []value) (value, bool) {
+			panic(pathAbort{"giveup:" + strArg(args[0])})
+		},
 		"verifBool": func(fr *frame, args []value) (value, bool) {
 			v := X.NewVar(varName(strArg(args[0])), 0, 0, nil)
 			return sym{types.Bool, v}, true
@@ -343,4 +374,17 @@ func SortedKeys[V any](m map[string]V) []string {
 	}
 	sort.Strings(ks)
 	return ks
+}
+
+// caseSimple: r is caseless or a member of a plain upper/lower pair.
+func caseSimple(r rune) bool {
+	f := unicode.SimpleFold(r)
+	if f == r {
+		return true
+	}
+	if unicode.SimpleFold(f) != r {
+		return false
+	}
+	lo, up := unicode.ToLower(r), unicode.ToUpper(r)
+	return (lo == r && up == f) || (up == r && lo == f)
 }
